@@ -488,6 +488,18 @@ func (x *session) stranded() []string {
 	return out
 }
 
+// undelivered reports whether the relay has accepted data it has not delivered yet.
+func (x *session) undelivered() bool {
+	for i, id := range x.ids {
+		var got int
+		x.R.With(func(r *h2kit.Rec) { got = r.DataBytes[id] })
+		if got < x.total[i] {
+			return true
+		}
+	}
+	return false
+}
+
 func shapeOf(c Case, upto int) string {
 	// the shape of a history for signatures: what kinds of steps it contained
 	if upto < len(c.Ops) {
@@ -654,7 +666,10 @@ func runOnce(c Case, bound time.Duration) (kit.Verdict, bool) {
 			}
 			x.R.WriteWindowUpdate(id, uint32(op.N))
 		case "iws":
-			if op.Rep {
+			// The repeated form only while the relay holds no data of this session: an
+			// intermediate value that lets queued frames go before the last value takes
+			// effect is a grey area the check does not judge.
+			if op.Rep && !x.undelivered() {
 				x.R.WriteSettings(h2kit.Setting{ID: 4, Val: uint32(op.First)}, h2kit.Setting{ID: 4, Val: uint32(op.N)})
 			} else {
 				x.R.WriteSettings(h2kit.Setting{ID: 4, Val: uint32(op.N)})
